@@ -181,6 +181,10 @@ fn firing_in(entries: &[Entry]) -> BTreeSet<&'static str> {
 }
 
 struct BinCase {
+    /// 0 = `--path ./FromArg`; 1 = the explicit spelling of the default, `--path ./contracts`; 2 = `-p ./FromArg`
+    path_style: u8,
+    /// seed for the creation (hence listing) order of the corpus files
+    order_seed: u64,
     use_path: bool,
     use_toml: bool,
     have_contracts: bool,
@@ -205,7 +209,10 @@ fn toml_text(path: &str, sel: &[(String, String)], unknown: &Option<(String, Str
 fn binary_case(env: &Env, tape: &[u8], st: &mut Stats) -> Vec<Violation> {
     let mut t = Tape::new(tape);
     let docs = documented(env);
-    let mut c = BinCase { use_path: t.chance(128), use_toml: t.chance(170), have_contracts: t.chance(150), selected: vec![], unknown: None };
+    let mut c = BinCase { path_style: t.below(3) as u8, order_seed: t.u64(), use_path: t.chance(128), use_toml: t.chance(170), have_contracts: t.chance(150), selected: vec![], unknown: None };
+    if c.path_style == 1 {
+        c.have_contracts = true;
+    }
     if c.use_toml {
         for (cat, names) in &docs {
             for n in names {
@@ -241,7 +248,13 @@ fn run_bin_case(env: &Env, c: &BinCase, st: &mut Stats) -> Vec<Violation> {
         }
         let p = w.join(d);
         std::fs::create_dir_all(&p).unwrap();
-        tree::materialize(&corpus(marker), &p);
+        // creation order (= reverse listing order on tmpfs) of the corpus files from the case
+        let mut files = corpus(marker);
+        let bytes: Vec<u8> = (0..64u64).map(|i| (fnv(&(c.order_seed, i)) >> 11) as u8).collect();
+        let mut ot = Tape::new(&bytes);
+        let perm = ot.permutation(files.len());
+        files = perm.into_iter().map(|i| files[i].clone()).collect();
+        tree::materialize(&files, &p);
     }
     let fire = firing_in(&corpus("M"));
     let toml_file = w.join("cfg.toml");
@@ -250,8 +263,20 @@ fn run_bin_case(env: &Env, c: &BinCase, st: &mut Stats) -> Vec<Violation> {
     }
     let mut args: Vec<&str> = Vec::new();
     if c.use_path {
-        args.push("--path");
-        args.push("./FromArg");
+        match c.path_style {
+            1 => {
+                args.push("--path");
+                args.push("./contracts");
+            }
+            2 => {
+                args.push("-p");
+                args.push("./FromArg");
+            }
+            _ => {
+                args.push("--path");
+                args.push("./FromArg");
+            }
+        }
     }
     if c.use_toml {
         args.push("--toml");
@@ -261,7 +286,7 @@ fn run_bin_case(env: &Env, c: &BinCase, st: &mut Stats) -> Vec<Violation> {
     st.count("binary_runs");
     st.evaluations += 1;
     st.mark("path_toml_contracts_combinations", &format!("path={} toml={} contracts={}", c.use_path, c.use_toml, c.have_contracts));
-    let case = json!({"use_path": c.use_path, "use_toml": c.use_toml, "have_contracts": c.have_contracts, "selected": c.selected, "unknown": c.unknown});
+    let case = json!({"path_style": c.path_style, "order_seed": c.order_seed, "use_path": c.use_path, "use_toml": c.use_toml, "have_contracts": c.have_contracts, "selected": c.selected, "unknown": c.unknown});
     let mixed_case = c.selected.iter().any(|(_, n)| n.chars().any(|ch| ch.is_ascii_uppercase()));
     let cats: BTreeSet<&String> = c.selected.iter().map(|(c, _)| c).collect();
     if mixed_case || cats.len() >= 2 || (c.use_toml && c.have_contracts) || (c.use_path && c.use_toml) {
@@ -279,7 +304,9 @@ fn run_bin_case(env: &Env, c: &BinCase, st: &mut Stats) -> Vec<Violation> {
         return vec![];
     }
     // which directory must have been analysed
-    let expect_marker = if c.use_path {
+    let expect_marker = if c.use_path && c.path_style == 1 {
+        Some("DefaultDir")
+    } else if c.use_path {
         Some("ArgDir")
     } else if c.use_toml {
         Some("TomlDir")
@@ -310,7 +337,7 @@ fn run_bin_case(env: &Env, c: &BinCase, st: &mut Stats) -> Vec<Violation> {
     let expected: BTreeSet<&'static str> = selected.intersection(&fire).copied().collect();
     let got: BTreeSet<&str> = parsed.sections.iter().map(|s| s.as_str()).collect();
     if !expected.is_empty() && markers != [expect_marker].into_iter().collect() {
-        let kind = if !c.use_path && c.use_toml { "toml-path-ignored" } else { "wrong-directory" };
+        let kind = if !c.use_path && c.use_toml { "toml-path-ignored" } else if c.path_style == 1 { "explicit-default-path-ignored" } else { "wrong-directory" };
         return vec![Violation::new("binary", format!("directory:{kind}"), format!("the report names files of {:?}, the directory to analyse was that of {}", markers, expect_marker), case)];
     }
     let got_owned: BTreeSet<String> = got.iter().map(|s| s.to_string()).collect();
@@ -335,6 +362,8 @@ pub fn replay(env: &Env, check: &str, case: &Value, st: &mut Stats) -> Vec<Viola
         .unwrap_or_default();
     let unknown = case.get("unknown").and_then(|u| u.as_array()).and_then(|p| Some((p.get(0)?.as_str()?.to_string(), p.get(1)?.as_str()?.to_string())));
     let c = BinCase {
+        path_style: case.get("path_style").and_then(|b| b.as_u64()).unwrap_or(0) as u8,
+        order_seed: case.get("order_seed").and_then(|b| b.as_u64()).unwrap_or(0),
         use_path: case.get("use_path").and_then(|b| b.as_bool()).unwrap_or(false),
         use_toml: case.get("use_toml").and_then(|b| b.as_bool()).unwrap_or(false),
         have_contracts: case.get("have_contracts").and_then(|b| b.as_bool()).unwrap_or(true),
